@@ -115,6 +115,58 @@ type StoreWorld struct {
 	onCommit func(Commit)
 }
 
+// commitTriggers lets harness tasks react to commits: "place the fault right after the event that opens the window". The
+// tap calls fire in the committing task (no scheduling point); waiters are woken and compete with that task's next step.
+type commitTriggers struct {
+	typ     string
+	waiting map[string][]chan struct{}
+	prev    map[string]Snap
+}
+
+func newCommitTriggers(typ string) *commitTriggers {
+	return &commitTriggers{typ: typ, waiting: map[string][]chan struct{}{}, prev: map[string]Snap{}}
+}
+
+func (ct *commitTriggers) fire(c Commit) {
+	if c.Type != ct.typ {
+		return
+	}
+	var keys []string
+	p, existed := ct.prev[c.ID]
+	if c.Kind == "destroy" {
+		keys = append(keys, "destroyed:"+c.ID)
+		delete(ct.prev, c.ID)
+	} else {
+		if !existed {
+			keys = append(keys, "created:"+c.ID)
+		}
+		if c.Snap.Phase == "tearingDown" && (!existed || p.Phase != "tearingDown") {
+			keys = append(keys, "td:"+c.ID)
+		}
+		if existed && c.Snap.Fins == "" && p.Fins != "" {
+			keys = append(keys, "fin-empty:"+c.ID)
+		}
+		if c.Snap.Fins != "" && (!existed || p.Fins == "") {
+			keys = append(keys, "fin-added:"+c.ID)
+		}
+		ct.prev[c.ID] = c.Snap
+	}
+	for _, k := range keys {
+		for _, ch := range ct.waiting[k] {
+			close(ch)
+		}
+		delete(ct.waiting, k)
+	}
+}
+
+// wait blocks the calling task until the trigger fires (true) or ctx ends (false).
+func (ct *commitTriggers) wait(ctx context.Context, trigger, id string) bool {
+	ch := make(chan struct{})
+	k := trigger + ":" + id
+	ct.waiting[k] = append(ct.waiting[k], ch)
+	return simrt.Select("trigger.wait", false, simrt.Recv[struct{}](ch), simrt.Recv(ctx.Done())) == 0
+}
+
 // Variants of the store stack.
 var storeVariants = []string{"inmem", "namespaced", "inmem+tap", "namespaced+tap", "inmem+preload+tap"}
 
